@@ -30,3 +30,12 @@ pub fn take_release_never(b: &SyncBlocker) -> bool {
     assert!(!unsafe { *b.release.as_ptr() }, "model: release flag set in a harness where no waiter gives up");
     false
 }
+
+/// stubs for harnesses in which every party is a coroutine: the thread parker must not be used
+pub fn tp_park_unreachable(_t: &ThreadPark, _d: Option<Duration>) -> Result<(), ParkError> {
+    assert!(false, "model: thread park in a coroutine harness");
+    Ok(())
+}
+pub fn tp_unpark_unreachable(_t: &ThreadPark) {
+    assert!(false, "model: thread unpark in a coroutine harness");
+}
